@@ -58,6 +58,7 @@ GRID_QUICK = [
     ((2.0, 30.0, 0.55), (5.0, 25.0, 0.7)),
     ((0.0, 0.07, 0.5), (1.0, 15.0, 0.5)),
     ((0.0, 14.0, 0.5), (0.0, 0.5, 0.5)),
+    ((2.0, 20.0, 0.5), (0.0, 25.0, 0.5)),   # a junction's own minimum pressure of exactly 0 under a non-zero global one
     ((0.0, 0.07, 0.5), None),      # WNTR/EPANET default options
 ]
 GRID_THOROUGH = GRID_QUICK + [
@@ -97,6 +98,39 @@ def check_config(rep, cfg, junction, tag):
         paths = list(symx.explore(harness, max_paths=64))
     base = dict(cfg=[list(cfg[0]), list(cfg[1]) if cfg[1] else None], junction=junction, pmin=pmin, preq=preq, exponent=e)
     _obligations(rep, paths, tag, base, rv(pmin), rv(preq), e, [], concrete=(pmin, preq))
+
+
+UPDATES = [
+    # global options, J1 override at build time, J1 (Pmin, Preq) after a mid-run change through the ModelUpdater
+    ((0.0, 20.0, 0.5), (2.0, 30.0, None), (2.0, 20.0)),     # required pressure lowered by a control
+    ((0.0, 20.0, 0.5), (2.0, 30.0, None), (5.0, 30.0)),     # minimum pressure raised
+    ((1.0, 25.0, 0.5), None, (3.0, 18.0)),                  # both set on a junction that had no override
+]
+
+
+def check_update(rep, k, upd_cfg):
+    g, ov, (pmin2, preq2) = upd_cfg
+    tag = 'update%d.J1(Pmin %s->%g, Preq %s->%g)' % (k, ov[0] if ov else g[0], pmin2, ov[1] if ov else g[1], preq2)
+    wn = make_wn(*g, override=ov)
+    node = wn.get_node('J1')
+    elev = node.elevation
+    with amlsmt.installed():
+        m, upd = hydraulics.create_hydraulic_model(wn)
+        for attr, val in (('minimum_pressure', pmin2), ('required_pressure', preq2)):
+            if getattr(node, attr) != val:
+                setattr(node, attr, val)
+                upd.update(m, wn, node, attr)     # what update_model_for_controls does when a control changed this attribute
+
+        def harness(c):
+            p = c.real('p')
+            m.head['J1'].value = p + elev
+            m.demand['J1'].value = c.real('d')
+            m.expected_demand['J1'].value = c.real('D')
+            return m.pdd['J1'].evaluate()
+        paths = list(symx.explore(harness, max_paths=64))
+    e = (ov[2] if ov and ov[2] is not None else g[2])
+    base = dict(cfg=[list(g), list(ov) if ov else None], junction='J1', pmin=pmin2, preq=preq2, exponent=e, update=[pmin2, preq2])
+    _obligations(rep, paths, tag, base, rv(pmin2), rv(preq2), e, [], concrete=(pmin2, preq2))
 
 
 def _obligations(rep, paths, tag, base, Pmin, Preq, e, pre, concrete=None, two_point=True):
@@ -255,6 +289,7 @@ def run(rep, only=None):
     for s in amlsmt.STUBS:
         rep.stub(s)
     rep.bound('pressure p, delivered demand d, requested demand D: any real')
+    rep.bound('mid-run changes of a junction minimum/required pressure through the ModelUpdater (3 listed transitions)')
     rep.bound('quick: (Pmin, Preq, exponent, per-junction override) from a listed grid incl. the default options; thorough adds Pmin in [0,100], '
               'Preq-Pmin >= 0.2, Preq <= 200 symbolic for exponent 0.5 (form, cover, low, high, middle, continuity; the two-point monotone and range queries over symbolic spline coefficients time out in z3 at 120 s and are claimed on the grid only)')
     rep.bound('exponent 0.5: exact (s>=0, s*s=x); exponent 1: exact; other exponents: uninterpreted strictly increasing function with pow(0)=0, '
@@ -265,15 +300,26 @@ def run(rep, only=None):
         for j in ('J1', 'J2'):
             tag = 'cfg%d.%s(Pmin=%g,Preq=%g,e=%g)' % ((k, j) + _params(cfg, j))
             guarded(rep, tag, check_config, rep, cfg, j, tag)
+    for k, u in enumerate(UPDATES):
+        guarded(rep, 'update%d' % k, check_update, rep, k, u)
     if rep.tier == 'thorough':
         guarded(rep, 'symbolic-e0.5', check_symbolic, rep, 0.5, 'sym(Pmin,Preq;e=0.5)')
     rep.templates.append('R-P1-J1-P2-J2, PDD; J1 optionally overriding Pmin/Preq/exponent')
 
 
 # ---- replay: real model (C++ evaluator), plain floats -------------------------------------------------
+_UPDATE = [None]
+
+
 def _g_real(cfg, junction, ps):
     wn = make_wn(*cfg[0], override=tuple(cfg[1]) if cfg[1] else None)
     m, upd = hydraulics.create_hydraulic_model(wn)
+    if _UPDATE[0] is not None and junction == 'J1':
+        node = wn.get_node('J1')
+        for attr, val in (('minimum_pressure', _UPDATE[0][0]), ('required_pressure', _UPDATE[0][1])):
+            if getattr(node, attr) != val:
+                setattr(node, attr, val)
+                upd.update(m, wn, node, attr)
     elev = wn.get_node(junction).elevation
     m.demand[junction].value = 0.0
     m.expected_demand[junction].value = 1.0
@@ -285,6 +331,7 @@ def _g_real(cfg, junction, ps):
 
 
 def replay_curve(i):
+    _UPDATE[0] = i.get('update')
     if i.get('symbolic'):
         cfg = [[0.0, 20.0, i['exponent']], [i['Pmin'], i['Preq'], None]]
         pmin, preq, e = i['Pmin'], i['Preq'], i['exponent']
